@@ -74,3 +74,21 @@ def is_server_stub(cx):
 ROLE_STUBS = {'self.is_client': is_client_stub, 'self.is_server': is_server_stub}
 for _s in ROLE_STUBS.values():
     _s.modifies = ()
+
+# ---- channel.py
+CHUNK = 'tuple[bytearray,opt[int]]'        # (data, datatype) entries of _send_buf
+RCHUNK = 'tuple[bytes,opt[int]]'           # entries of _recv_buf
+CHAN_FIELDS = {
+    '_send_buf': 'seq[' + CHUNK + ']', '_send_buf_len': 'int', '_send_window': 'int', '_send_pktsize': 'int',
+    '_send_state': 'str', '_send_paused': 'bool', '_send_high_water': 'int', '_send_low_water': 'int',
+    '_send_chan': 'opt[int]', '_recv_chan': 'opt[int]',
+    '_recv_buf': 'seq[' + RCHUNK + ']', '_recv_window': 'int', '_init_recv_window': 'int',
+    '_recv_pktsize': 'int', '_recv_state': 'str', '_recv_paused': 'any',
+    '_encoding': 'opt[str]', '_session': 'opt[obj:Session]', '_decoder': 'opt[obj:Decoder]',
+    '_conn': 'opt[obj:Conn]', '_read_datatypes': 'opaque:IntSet',
+    # ghost state (verification only)
+    'ghost_emitted': 'seq[' + RCHUNK + ']',     # (data, datatype) of every DATA/EXTENDED_DATA packet sent
+    'ghost_delivered': 'seq[' + RCHUNK + ']',   # every chunk handed to _deliver_data
+    'ghost_credit': 'int',                      # window advertised to the peer minus bytes accepted
+}
+CHAN_CLASSES = {'SSHChannel': CHAN_FIELDS, 'Session': {}, 'Decoder': {}, 'Conn': {}}
